@@ -4,6 +4,7 @@
 //!   dv replay FILE
 //!   dv list
 
+mod canary;
 mod common;
 mod compress;
 mod containers;
@@ -29,6 +30,9 @@ fn main() {
     if args.len() < 2 {
         eprintln!("usage: dv <check> [options] | dv replay FILE | dv list");
         std::process::exit(2);
+    }
+    if args[1] == "canary" {
+        std::process::exit(canary::run(args.get(2).map(|s| s.as_str()).unwrap_or("")));
     }
     monitors::install_panic_hook();
     let check = args[1].clone();
